@@ -12,7 +12,7 @@ type wireKey struct {
 	Sender gpbft.ActorID
 	Round  uint64
 	Phase  gpbft.Phase
-	Value  gpbft.ECChainKey
+	Value  string
 }
 
 // onWire records every message any member (honest or Byzantine) put on the simulated wire.
@@ -20,12 +20,44 @@ func (w *World) onWire(from *Member, msg *gpbft.GMessage) {
 	if w.wire == nil {
 		w.wire = map[wireKey]struct{}{}
 	}
-	w.wire[wireKey{msg.Vote.Instance, msg.Sender, msg.Vote.Round, msg.Vote.Phase, msg.Vote.Value.Key()}] = struct{}{}
+	w.wire[wireKey{msg.Vote.Instance, msg.Sender, msg.Vote.Round, msg.Vote.Phase, chainID(msg.Vote.Value)}] = struct{}{}
+}
+
+// The oracles use comparisons of their own (never the repository's Eq/Equal/HasBase/IsZero/Key
+// helpers, which a change under test may have altered).
+
+func isBottom(c *gpbft.ECChain) bool { return c == nil || len(c.TipSets) == 0 }
+
+func suppEq(a, b *gpbft.SupplementalData) bool {
+	return a.PowerTable == b.PowerTable && a.Commitments == b.Commitments
+}
+
+func tipsetEq(x, y *gpbft.TipSet) bool {
+	if x == nil || y == nil {
+		return x == y
+	}
+	return x.Epoch == y.Epoch && string(x.Key) == string(y.Key) && x.PowerTable == y.PowerTable && x.Commitments == y.Commitments
+}
+
+func hasBase(c *gpbft.ECChain, b *gpbft.TipSet) bool {
+	return !isBottom(c) && b != nil && tipsetEq(c.TipSets[0], b)
+}
+
+// chainID is an injective identifier of a chain for the oracles' own maps.
+func chainID(c *gpbft.ECChain) string {
+	if isBottom(c) {
+		return ""
+	}
+	var b []byte
+	for _, t := range c.TipSets {
+		b = fmt.Appendf(b, "%d|%d:%s|%s|%x;", t.Epoch, len(t.Key), t.Key, t.PowerTable.String(), t.Commitments)
+	}
+	return string(b)
 }
 
 func tipsetsEqual(a, b *gpbft.ECChain) bool {
-	if a.IsZero() || b.IsZero() {
-		return a.IsZero() == b.IsZero()
+	if isBottom(a) || isBottom(b) {
+		return isBottom(a) == isBottom(b)
 	}
 	if len(a.TipSets) != len(b.TipSets) {
 		return false
@@ -40,7 +72,7 @@ func tipsetsEqual(a, b *gpbft.ECChain) bool {
 }
 
 func isPrefixOf(p, c *gpbft.ECChain) bool {
-	if p.IsZero() || c.IsZero() || len(p.TipSets) > len(c.TipSets) {
+	if isBottom(p) || isBottom(c) || len(p.TipSets) > len(c.TipSets) {
 		return false
 	}
 	return tipsetsEqual(p, &gpbft.ECChain{TipSets: c.TipSets[:len(p.TipSets)]})
@@ -74,11 +106,11 @@ func (w *World) onDecision(m *Member, d *gpbft.Justification) {
 	}
 	// ---- C02 validity
 	v := d.Vote.Value
-	if v.IsZero() {
+	if isBottom(v) {
 		w.fail("C02", "decided_bottom", "bottom", "member %d decided bottom in instance %d", m.ID, k)
 	} else {
 		in := m.inputs[k]
-		if in == nil || !v.Base().Equal(in.Base()) {
+		if in == nil || !hasBase(v, in.TipSets[0]) {
 			w.fail("C02", "wrong_base", "base", "member %d decided %s whose base differs from its input base", m.ID, chainStr(v))
 		}
 		ok := false
@@ -116,7 +148,7 @@ func (w *World) checkProof(m *Member, info *InstanceInfo, d *gpbft.Justification
 		w.fail("C03", "decision_wrong_step", "step", "member %d decision has round %d phase %s", m.ID, d.Vote.Round, d.Vote.Phase)
 		return
 	}
-	if !d.Vote.SupplementalData.Eq(&info.Supp) {
+	if !suppEq(&d.Vote.SupplementalData, &info.Supp) {
 		w.fail("C03", "decision_wrong_supplement", "supp", "member %d decision carries foreign supplemental data", m.ID)
 		return
 	}
@@ -136,7 +168,7 @@ func (w *World) checkProof(m *Member, info *InstanceInfo, d *gpbft.Justification
 		if sp <= 0 {
 			return fmt.Errorf("signer %d (index %d) has zero scaled power", id, i)
 		}
-		if _, ok := w.wire[wireKey{k, id, 0, gpbft.DECIDE_PHASE, d.Vote.Value.Key()}]; !ok {
+		if _, ok := w.wire[wireKey{k, id, 0, gpbft.DECIDE_PHASE, chainID(d.Vote.Value)}]; !ok {
 			return fmt.Errorf("signer %d never sent DECIDE for this value", id)
 		}
 		power += sp
